@@ -107,8 +107,12 @@ class RefsExtractor(ConversionsVisitor, ObjectVisitor, WithConversionsResolver):
         self.visit(value_type)
 
     def object(self, tp: AnyType, fields: Sequence[ObjectField]):
-        if parent := get_discriminated_parent(get_origin_or_type(tp)):
-            self._incr_ref(get_type_name(parent).json_schema, parent)
+        cls = get_origin_or_type(tp)
+        if (parent := get_discriminated_parent(cls)) and parent is not cls:
+            # the schema of a child always references the definition of its
+            # discriminated parent, so ensure ref count > 1
+            for _ in range(2):
+                self._incr_ref(get_type_name(parent).json_schema, parent)
         for field in fields:
             self.visit_with_conv(field.type, self._field_conversion(field))
 
